@@ -328,6 +328,40 @@ func GenOpsT(t *rapid.T, cfg pat.Cfg, pool []string, n int, o GenOpts) ([]Op, []
 		}
 		return rapid.SampledFrom(pool).Draw(t, label+"Any"), false
 	}
+	// opening template (one history in five, when the pool has a pattern and an extension of it): both are registered, in
+	// either order, and a Prefix.Clean lands between them - right behind the shorter pattern or a byte or two into the
+	// extension - so that exactly one of two nodes that share their text must go
+	var pairs [][2]string
+	for _, a := range pool {
+		for _, b := range pool {
+			if len(b) > len(a) && strings.HasPrefix(b, a) && len(pairs) < 40 {
+				pairs = append(pairs, [2]string{a, b})
+			}
+		}
+	}
+	if len(pairs) > 0 && n >= 3 && rapid.IntRange(0, 4).Draw(t, "opening") == 0 {
+		pr := rapid.SampledFrom(pairs).Draw(t, "openPair")
+		first, second := pr[0], pr[1]
+		if rapid.Bool().Draw(t, "openSwap") {
+			first, second = second, first
+		}
+		for _, p := range []string{first, second} {
+			op := Op{Kind: "handle", Pattern: p, Methods: genMethods(t, g.tb.R[p], o.NewMethods, o.Trace)}
+			if g.accept(p, op.Methods) {
+				g.tb.Handle(p, "x", op.Methods)
+				ever[p] = true
+			}
+			ops = append(ops, op)
+		}
+		cut := len(pr[0]) + rapid.IntRange(0, min(2, len(pr[1])-len(pr[0]))).Draw(t, "openCut")
+		for cut < len(pr[1]) && !utf8.RuneStart(pr[1][cut]) {
+			cut++
+		}
+		op := Op{Kind: "prefixClean", Prefix: pr[1][:cut]}
+		g.tb.CleanPrefix(op.Prefix)
+		ops = append(ops, op)
+		n -= 3
+	}
 	for i := 0; i < n; i++ {
 		k := rapid.IntRange(0, 19).Draw(t, "opKind")
 		switch {
